@@ -80,9 +80,9 @@ P = {'id': 'C05',
  'assumptions': ['agreement of model and code (every observation of every op of the generated histories) is established on the generated histories only',
                  'keys are byte strings (symbols < 256) in the theorems about insert; lookups are proved for arbitrary symbol lists',
                  'u32 state ids / usize counters do not overflow (2^32 nodes are out of reach); for the double array this is proved, not assumed: under the '
-                 'invariant every array stays below 2^22 slots',
-                 'da_refines_set assumes that no insert of the history returned Err (d_noerr): relocate_state gives up after 10001 attempts of stride 257, '
-                 'which needs arrays of millions of slots; index panics of the double-array code are not modelled separately (an out-of-range read yields the '
+                 'invariant every array stays below MAX_STATE = 2^31 - 2 slots and every base below MAX_BASE',
+                 'da_refines_set assumes that no insert of the history returned Err (d_noerr): by da_noerr_or_huge that can only happen once an array has grown '
+                 'to the capacity of the 31-bit format (2 147 483 133 slots); index panics of the double-array code are not modelled separately (an out-of-range read yields the '
                  'fill word, every index is in range under the invariant); state_count / free_list / transitions() of the double array are not modelled'],
  'level_text': 'Machine-checked Coq theorems, by induction over arbitrary operation histories, about Gallina restatements of the trie code as written: the '
                'Patricia-storage ZiporaTrie (in fact an uncompressed 256-ary node-vector trie) started empty answers every history of insert / remove / '
@@ -91,7 +91,7 @@ P = {'id': 'C05',
                'remove never changes another lookup. The double-array storage (base/check arrays, terminal and free bits, growth, find_free_base, the three '
                'insert branches, relocate_state with its search loop, the move of children with their bases and terminal bits and the re-parenting of '
                'grandchildren) refines the set for every history in which no insert reports an error (da_refines_set, da_relocation_preserves_keys; invariant: '
-               "one ghost address per used slot, every used slot inside its parent's 256-window, arrays below 2^22 slots), with keys / keys_with_prefix / "
+               "one ghost address per used slot, every used slot inside its parent's 256-window, arrays below MAX_STATE slots), with keys / keys_with_prefix / "
                'clone. The compressed-sparse storage as a trie over hash maps refines the set for every history (cs_refines_set; its insert never errs). The '
                'default accepts / longest_prefix of traits.rs are correct over any automaton whose language is the set (fsa_longest_prefix_correct). The LOUDS '
                'record buffer refines the set on the operations it implements; refutation theorems for the recorded findings. The models are tied to the '
@@ -104,4 +104,4 @@ P = {'id': 'C05',
               'differential check on operation histories by vm_compute + BTreeSet differential oracle for all cells',
  'explanation': 'Unbounded refinement theorems for the Patricia, double-array, sparse (two models) and LOUDS storages as written and for the default FSA walk; '
                 'differential oracle for every TrieStrategy preset, custom config and legacy wrapper; stubs and missing remove recorded as narrow finding '
-                'classes; five small defects repaired by fix: commits.'}
+                'classes; six small defects repaired by fix: commits (one of them, the relocation limit of the double array, predicted by the model and confirmed by a scratch probe).'}
